@@ -74,9 +74,28 @@ def gen_soup(tier, rng):
             yield mk("nest-close/%s/%d" % (o, d), "let z = 1" + c * d + ";")
 
 
+def gen_long_tokens(tier, rng):
+    """long tokens whose multi-byte characters fall on every byte offset: diagnostics that echo, clip or slice token text"""
+    quick = tier == "quick"
+    offs = list(range(0, 70)) if not quick else list(range(0, 70, 3)) + [31, 32, 33, 63, 64, 65]
+    for k in sorted(set(offs)):
+        pad = "a" * k
+        for nm, wide in (("cyr", "Привет, мир"), ("cjk", "日本語のテキスト"), ("emoji", "\U0001F600\U0001F601")):
+            yield mk("long/str-open/%s/%d" % (nm, k), 'let g = "' + pad + wide + ";")                      # unterminated string
+            yield mk("long/str/%s/%d" % (nm, k), 'let g = "' + pad + wide + '"; puts(g, nosuch);')          # compile error after a long literal
+            yield mk("long/char/%s/%d" % (nm, k), "let c = '" + pad + wide + "';")                          # malformed char literal
+            yield mk("long/byte/%s/%d" % (nm, k), "let c = b'" + pad + wide + "';")
+            yield mk("long/ident/%s/%d" % (nm, k), "let " + "v" + pad + wide + " = 1; puts(v" + pad + wide + ");")
+            yield mk("long/num/%s/%d" % (nm, k), "let n = 1" + "0" * k + wide + ";")
+            yield mk("long/comment/%s/%d" % (nm, k), "// " + pad + wide + "\n" + "@" + pad + wide)
+            yield mk("long/prop/%s/%d" % (nm, k), "let q = 1; q." + pad + wide + ";")
+
+
 GROUPS = [
     dict(name="C01/prefixes-and-mutations", clause="scanning, parsing and compiling end with a run or with diagnostics for every source text - no panic, no hang - and a program with diagnostics is not executed",
          bound="12 corpus programs covering every token and statement form: every prefix (quick: every cut after a character that can start or continue a multi-character token, plus 30 random cuts per program) and 25/400 single-token mutations per program", gen=gen_prefixes),
     dict(name="C01/token-soup-and-nesting", clause="same, for random token sequences incl. Unicode and NUL, and bracket/prefix nesting up to 64 deep (balanced, unclosed, over-closed)",
          bound="150/4000 seeded token soups of <= 14 tokens; 9 nesting shapes x depths 1, 8, 32, 63, 64", gen=gen_soup),
+    dict(name="C01/long-non-ascii-tokens", clause="same, for long string / char / byte / identifier / number / comment / property tokens holding multi-byte characters at every byte offset (diagnostics echo token text)",
+         bound="8 token shapes x 3 scripts x byte offsets 0..69 (quick: every third offset plus 31-33, 63-65)", gen=gen_long_tokens),
 ]
